@@ -53,7 +53,7 @@ package css
 //@   preserves[S] lexStep(l)
 //@   ensures[S]  !result ==> l.r.pos == old(l.r.pos)
 //@   ensures[S]  result ==> l.r.pos > old(l.r.pos)
-//@   loop 1 invariant l.r.pos > old(l.r.pos)
+//@   loop 1 invariant l.r.pos > old(l.r.pos) && l.r.start == old(l.r.start)
 //@   loop 1 decreases len(l.r.buf) - l.r.pos
 
 //@ func Lexer.consumeCustomVariableToken
@@ -66,14 +66,14 @@ package css
 //@   preserves[S] lexStep(l)
 //@   requires[S] l.r.buf[l.r.pos] != 0
 //@   ensures[S]  !result ==> l.r.pos == old(l.r.pos)
-//@   ensures[S]  result ==> l.r.pos > old(l.r.pos)
+//@   ensures[S]  result ==> l.r.pos >= old(l.r.pos) + 2
 
 //@ func Lexer.consumeHashToken
 //@   preserves[S] lexStep(l)
 //@   requires[S] l.r.buf[l.r.pos] != 0
 //@   ensures[S]  !result ==> l.r.pos == old(l.r.pos)
 //@   ensures[S]  result ==> l.r.pos > old(l.r.pos)
-//@   loop 1 invariant l.r.pos > old(l.r.pos)
+//@   loop 1 invariant l.r.pos > old(l.r.pos) && l.r.start == old(l.r.start)
 //@   loop 1 decreases len(l.r.buf) - l.r.pos
 
 //@ func Lexer.consumeNumberToken
@@ -148,11 +148,12 @@ package css
 //@   ensures[S,C01]  @progress: l.r.pos > old(l.r.pos) || (result0 == ErrorToken && atEnd(l) && l.r.pos == old(l.r.pos))
 //@   ensures[S,C01]  @sticky: old(atEnd(l)) && old(l.r.buf[l.r.pos]) == 0 ==> result0 == ErrorToken && l.r.pos == old(l.r.pos)
 //@   ensures[S,C01]  @noinvent: result0 == ErrorToken ==> result1 == nil
-//@   requires[T] l.r.start == l.r.pos
+//@   requires[S] l.r.start == l.r.pos
+//@   ensures[S]  @toklen: l.r.start == l.r.pos && (result0 != ErrorToken ==> len(result1) >= 1 && len(result1) == l.r.pos - old(l.r.pos) && cap(result1) == len(result1))
+//@   ensures[S]  @atkw: result0 == AtKeywordToken ==> len(result1) >= 2
 //@   ensures[T,C02]  @tile: result0 != ErrorToken ==> sameMem(result1, l.r.buf[old(l.r.pos):l.r.pos]) && cap(result1) == len(result1) && len(result1) > 0
 //@   ensures[T,C02]  @shifted: l.r.start == l.r.pos
-//@   loop 1 invariant l.r.pos > old(l.r.pos)
-//@   loop 1 invariant[T] l.r.start == old(l.r.start)
+//@   loop 1 invariant l.r.pos > old(l.r.pos) && l.r.start == old(l.r.start)
 //@   loop 1 decreases len(l.r.buf) - l.r.pos
 
 //@ func Lexer.Err
@@ -178,3 +179,205 @@ package css
 //@   ensures[S] true
 //@ func Hash.String
 //@   ensures[S] true
+
+// ===================================================================== parse.go (C01, C08)
+//@ pred isRootState(f) := f == fn("css.Parser.parseStylesheet") || f == fn("css.Parser.parseDeclarationList")
+//@ pred isAtRuleBlock(f) := f == fn("css.Parser.parseAtRuleRuleList") || f == fn("css.Parser.parseAtRuleDeclarationList") || f == fn("css.Parser.parseAtRuleUnknown")
+// cpM: progress measure of the parser
+//@ pred cpM(p) := 2*(len(p.l.r.buf) - p.l.r.pos) + len(p.state) + ite(p.prevEnd, 1, 0)
+//@ pred isBlockState(f) := f == fn("css.Parser.parseAtRuleRuleList") || f == fn("css.Parser.parseAtRuleDeclarationList") ||
+//@      f == fn("css.Parser.parseAtRuleUnknown") || f == fn("css.Parser.parseQualifiedRuleDeclarationList")
+// tokOK: what the parser knows about a token handed out by the lexer
+//@ pred tokOK(tt, data, p) := (tt == DelimToken || tt == AtKeywordToken || tt == IdentToken ==> len(data) >= 1) && (tt == AtKeywordToken ==> len(data) >= 2) && len(data) <= p.l.r.pos && (cap(data) == len(data) || disjoint(data, p.l.r.buf))
+// cpInv: cursor well-formed; the state stack is never empty, its bottom is a root state and every other entry a block state
+//@ pred cpInv(p) := p != nil && p.l != nil && lexInv(p.l) && p.l.r.start == p.l.r.pos && len(p.state) >= 1 && isRootState(p.state[0]) &&
+//@      forall(i, 1, len(p.state), isBlockState(p.state[i])) && tokOK(p.tt, p.data, p) && (p.prevEnd ==> p.l.r.pos >= 1) && (p.tt == CommentToken ==> len(p.state) == 1)
+
+//@ func Parser.popToken
+//@   preserves[S] p != nil && p.l != nil && lexInv(p.l) && p.l.r.start == p.l.r.pos && p.l.r.pos >= old(p.l.r.pos)
+//@   ensures[S]  tokOK(result0, result1, p) && len(result1) <= p.l.r.pos - old(p.l.r.pos) && (result0 != ErrorToken ==> p.l.r.pos > old(p.l.r.pos)) && (result0 == RightBraceToken ==> p.l.r.pos >= 1) && (result0 == CommentToken ==> allowComment && len(p.state) == 1)
+//@   loop 1 invariant tokOK(tt, data, p) && len(data) <= p.l.r.pos - old(p.l.r.pos) && (tt != ErrorToken ==> p.l.r.pos > old(p.l.r.pos))
+//@   loop 1 decreases ite((!p.keepWS && tt == WhitespaceToken) || tt == CommentToken, len(p.l.r.buf) - p.l.r.pos + 1, 0)
+
+//@ func Parser.parseStylesheet
+//@   preserves[S] cpInv(p) && p.l.r.pos >= old(p.l.r.pos)
+//@   requires[S] p.state[len(p.state)-1] == self() || (isBlockState(p.state[len(p.state)-1]) && !isBlockState(self()) && p.tt != ErrorToken && p.tt != SemicolonToken && p.tt != CommentToken && p.tt != RightBraceToken)
+//@   ensures[F,C08] @begin-atrule: result == BeginAtRuleGrammar ==> len(p.state) == old(len(p.state)) + 1 && isAtRuleBlock(p.state[len(p.state)-1])
+//@   ensures[F,C08] @begin-ruleset: result == BeginRulesetGrammar ==> len(p.state) == old(len(p.state)) + 1 && p.state[len(p.state)-1] == fn("css.Parser.parseQualifiedRuleDeclarationList")
+//@   ensures[F,C08] @end-atrule: result == EndAtRuleGrammar ==> len(p.state) == old(len(p.state)) - 1 && isAtRuleBlock(old(p.state[len(p.state)-1]))
+//@   ensures[F,C08] @end-ruleset: result == EndRulesetGrammar ==> len(p.state) == old(len(p.state)) - 1 && old(p.state[len(p.state)-1]) == fn("css.Parser.parseQualifiedRuleDeclarationList")
+//@   ensures[F,C08] @same-depth: result == DeclarationGrammar || result == TokenGrammar || result == CommentGrammar || result == AtRuleGrammar || result == CustomPropertyGrammar ==> len(p.state) == old(len(p.state))
+//@   ensures[F,C08] @stack-prefix: forall(i, 0, min(len(p.state), old(len(p.state))), p.state[i] == old(p.state[i]))
+//@   ensures[F,C08] @eof-closed: result == ErrorGrammar && p.err == "" ==> len(p.state) == 1
+
+//@ func Parser.parseDeclarationList
+//@   loop * candidate p.tt != CommentToken
+//@   loop * invariant old(p.tt) != SemicolonToken && old(p.tt) != CommentToken ==> p.tt == old(p.tt)
+//@   loop * candidate len(p.state) == old(len(p.state))
+//@   loop * candidate p.prevEnd == old(p.prevEnd)
+//@   loop * candidate forall(i, 0, len(p.state), p.state[i] == old(p.state[i]))
+//@   loop * candidate p.err == old(p.err)
+//@   loop * invariant old(p.tt) == ErrorToken ==> p.tt == ErrorToken && len(p.state) == old(len(p.state)) && p.l.r.pos == old(p.l.r.pos) && p.prevEnd == old(p.prevEnd)
+//@   preserves[S] cpInv(p) && p.l.r.pos >= old(p.l.r.pos)
+//@   requires[S] p.state[len(p.state)-1] == self() || (isBlockState(p.state[len(p.state)-1]) && !isBlockState(self()) && p.tt != ErrorToken && p.tt != SemicolonToken && p.tt != CommentToken && p.tt != RightBraceToken)
+//@   ensures[F,C08] @begin-atrule: result == BeginAtRuleGrammar ==> len(p.state) == old(len(p.state)) + 1 && isAtRuleBlock(p.state[len(p.state)-1])
+//@   ensures[F,C08] @begin-ruleset: result == BeginRulesetGrammar ==> len(p.state) == old(len(p.state)) + 1 && p.state[len(p.state)-1] == fn("css.Parser.parseQualifiedRuleDeclarationList")
+//@   ensures[F,C08] @end-atrule: result == EndAtRuleGrammar ==> len(p.state) == old(len(p.state)) - 1 && isAtRuleBlock(old(p.state[len(p.state)-1]))
+//@   ensures[F,C08] @end-ruleset: result == EndRulesetGrammar ==> len(p.state) == old(len(p.state)) - 1 && old(p.state[len(p.state)-1]) == fn("css.Parser.parseQualifiedRuleDeclarationList")
+//@   ensures[F,C08] @same-depth: result == DeclarationGrammar || result == TokenGrammar || result == CommentGrammar || result == AtRuleGrammar || result == CustomPropertyGrammar ==> len(p.state) == old(len(p.state))
+//@   ensures[F,C08] @stack-prefix: forall(i, 0, min(len(p.state), old(len(p.state))), p.state[i] == old(p.state[i]))
+//@   ensures[F,C08] @eof-closed: result == ErrorGrammar && p.err == "" ==> len(p.state) == 1
+
+//@ func Parser.parseAtRuleRuleList
+//@   preserves[S] cpInv(p) && p.l.r.pos >= old(p.l.r.pos)
+//@   requires[S] p.state[len(p.state)-1] == self() || (isBlockState(p.state[len(p.state)-1]) && !isBlockState(self()) && p.tt != ErrorToken && p.tt != SemicolonToken && p.tt != CommentToken && p.tt != RightBraceToken)
+//@   ensures[F,C08] @begin-atrule: result == BeginAtRuleGrammar ==> len(p.state) == old(len(p.state)) + 1 && isAtRuleBlock(p.state[len(p.state)-1])
+//@   ensures[F,C08] @begin-ruleset: result == BeginRulesetGrammar ==> len(p.state) == old(len(p.state)) + 1 && p.state[len(p.state)-1] == fn("css.Parser.parseQualifiedRuleDeclarationList")
+//@   ensures[F,C08] @end-atrule: result == EndAtRuleGrammar ==> len(p.state) == old(len(p.state)) - 1 && isAtRuleBlock(old(p.state[len(p.state)-1]))
+//@   ensures[F,C08] @end-ruleset: result == EndRulesetGrammar ==> len(p.state) == old(len(p.state)) - 1 && old(p.state[len(p.state)-1]) == fn("css.Parser.parseQualifiedRuleDeclarationList")
+//@   ensures[F,C08] @same-depth: result == DeclarationGrammar || result == TokenGrammar || result == CommentGrammar || result == AtRuleGrammar || result == CustomPropertyGrammar ==> len(p.state) == old(len(p.state))
+//@   ensures[F,C08] @stack-prefix: forall(i, 0, min(len(p.state), old(len(p.state))), p.state[i] == old(p.state[i]))
+//@   ensures[F,C08] @eof-closed: result == ErrorGrammar && p.err == "" ==> len(p.state) == 1
+
+//@ func Parser.parseAtRuleDeclarationList
+//@   loop * candidate len(p.state) == old(len(p.state))
+//@   loop * candidate p.prevEnd == old(p.prevEnd)
+//@   loop * candidate forall(i, 0, len(p.state), p.state[i] == old(p.state[i]))
+//@   loop * candidate p.err == old(p.err)
+//@   loop * invariant old(p.tt) == ErrorToken ==> p.tt == ErrorToken && len(p.state) == old(len(p.state)) && p.l.r.pos == old(p.l.r.pos) && p.prevEnd == old(p.prevEnd)
+//@   preserves[S] cpInv(p) && p.l.r.pos >= old(p.l.r.pos)
+//@   requires[S] p.state[len(p.state)-1] == self() || (isBlockState(p.state[len(p.state)-1]) && !isBlockState(self()) && p.tt != ErrorToken && p.tt != SemicolonToken && p.tt != CommentToken && p.tt != RightBraceToken)
+//@   ensures[F,C08] @begin-atrule: result == BeginAtRuleGrammar ==> len(p.state) == old(len(p.state)) + 1 && isAtRuleBlock(p.state[len(p.state)-1])
+//@   ensures[F,C08] @begin-ruleset: result == BeginRulesetGrammar ==> len(p.state) == old(len(p.state)) + 1 && p.state[len(p.state)-1] == fn("css.Parser.parseQualifiedRuleDeclarationList")
+//@   ensures[F,C08] @end-atrule: result == EndAtRuleGrammar ==> len(p.state) == old(len(p.state)) - 1 && isAtRuleBlock(old(p.state[len(p.state)-1]))
+//@   ensures[F,C08] @end-ruleset: result == EndRulesetGrammar ==> len(p.state) == old(len(p.state)) - 1 && old(p.state[len(p.state)-1]) == fn("css.Parser.parseQualifiedRuleDeclarationList")
+//@   ensures[F,C08] @same-depth: result == DeclarationGrammar || result == TokenGrammar || result == CommentGrammar || result == AtRuleGrammar || result == CustomPropertyGrammar ==> len(p.state) == old(len(p.state))
+//@   ensures[F,C08] @stack-prefix: forall(i, 0, min(len(p.state), old(len(p.state))), p.state[i] == old(p.state[i]))
+//@   ensures[F,C08] @eof-closed: result == ErrorGrammar && p.err == "" ==> len(p.state) == 1
+
+//@ func Parser.parseAtRuleUnknown
+//@   preserves[S] cpInv(p) && p.l.r.pos >= old(p.l.r.pos)
+//@   requires[S] p.state[len(p.state)-1] == self() || (isBlockState(p.state[len(p.state)-1]) && !isBlockState(self()) && p.tt != ErrorToken && p.tt != SemicolonToken && p.tt != CommentToken && p.tt != RightBraceToken)
+//@   ensures[F,C08] @begin-atrule: result == BeginAtRuleGrammar ==> len(p.state) == old(len(p.state)) + 1 && isAtRuleBlock(p.state[len(p.state)-1])
+//@   ensures[F,C08] @begin-ruleset: result == BeginRulesetGrammar ==> len(p.state) == old(len(p.state)) + 1 && p.state[len(p.state)-1] == fn("css.Parser.parseQualifiedRuleDeclarationList")
+//@   ensures[F,C08] @end-atrule: result == EndAtRuleGrammar ==> len(p.state) == old(len(p.state)) - 1 && isAtRuleBlock(old(p.state[len(p.state)-1]))
+//@   ensures[F,C08] @end-ruleset: result == EndRulesetGrammar ==> len(p.state) == old(len(p.state)) - 1 && old(p.state[len(p.state)-1]) == fn("css.Parser.parseQualifiedRuleDeclarationList")
+//@   ensures[F,C08] @same-depth: result == DeclarationGrammar || result == TokenGrammar || result == CommentGrammar || result == AtRuleGrammar || result == CustomPropertyGrammar ==> len(p.state) == old(len(p.state))
+//@   ensures[F,C08] @stack-prefix: forall(i, 0, min(len(p.state), old(len(p.state))), p.state[i] == old(p.state[i]))
+//@   ensures[F,C08] @eof-closed: result == ErrorGrammar && p.err == "" ==> len(p.state) == 1
+
+//@ func Parser.parseQualifiedRuleDeclarationList
+//@   loop * candidate len(p.state) == old(len(p.state))
+//@   loop * candidate p.prevEnd == old(p.prevEnd)
+//@   loop * candidate forall(i, 0, len(p.state), p.state[i] == old(p.state[i]))
+//@   loop * candidate p.err == old(p.err)
+//@   loop * invariant old(p.tt) == ErrorToken ==> p.tt == ErrorToken && len(p.state) == old(len(p.state)) && p.l.r.pos == old(p.l.r.pos) && p.prevEnd == old(p.prevEnd)
+//@   preserves[S] cpInv(p) && p.l.r.pos >= old(p.l.r.pos)
+//@   requires[S] p.state[len(p.state)-1] == self() || (isBlockState(p.state[len(p.state)-1]) && !isBlockState(self()) && p.tt != ErrorToken && p.tt != SemicolonToken && p.tt != CommentToken && p.tt != RightBraceToken)
+//@   ensures[F,C08] @begin-atrule: result == BeginAtRuleGrammar ==> len(p.state) == old(len(p.state)) + 1 && isAtRuleBlock(p.state[len(p.state)-1])
+//@   ensures[F,C08] @begin-ruleset: result == BeginRulesetGrammar ==> len(p.state) == old(len(p.state)) + 1 && p.state[len(p.state)-1] == fn("css.Parser.parseQualifiedRuleDeclarationList")
+//@   ensures[F,C08] @end-atrule: result == EndAtRuleGrammar ==> len(p.state) == old(len(p.state)) - 1 && isAtRuleBlock(old(p.state[len(p.state)-1]))
+//@   ensures[F,C08] @end-ruleset: result == EndRulesetGrammar ==> len(p.state) == old(len(p.state)) - 1 && old(p.state[len(p.state)-1]) == fn("css.Parser.parseQualifiedRuleDeclarationList")
+//@   ensures[F,C08] @same-depth: result == DeclarationGrammar || result == TokenGrammar || result == CommentGrammar || result == AtRuleGrammar || result == CustomPropertyGrammar ==> len(p.state) == old(len(p.state))
+//@   ensures[F,C08] @stack-prefix: forall(i, 0, min(len(p.state), old(len(p.state))), p.state[i] == old(p.state[i]))
+//@   ensures[F,C08] @eof-closed: result == ErrorGrammar && p.err == "" ==> len(p.state) == 1
+
+//@ func Parser.parseAtRule
+//@   loop * candidate len(p.state) == old(len(p.state))
+//@   loop * candidate p.prevEnd == old(p.prevEnd)
+//@   loop * candidate forall(i, 0, len(p.state), p.state[i] == old(p.state[i]))
+//@   loop * candidate p.err == old(p.err)
+//@   preserves[S] cpInv(p) && p.l.r.pos >= old(p.l.r.pos)
+//@   ensures[F,C08] @begin-atrule: result == BeginAtRuleGrammar ==> len(p.state) == old(len(p.state)) + 1 && isAtRuleBlock(p.state[len(p.state)-1])
+//@   ensures[F,C08] @begin-ruleset: result == BeginRulesetGrammar ==> len(p.state) == old(len(p.state)) + 1 && p.state[len(p.state)-1] == fn("css.Parser.parseQualifiedRuleDeclarationList")
+//@   ensures[F,C08] @end-atrule: result == EndAtRuleGrammar ==> len(p.state) == old(len(p.state)) - 1 && isAtRuleBlock(old(p.state[len(p.state)-1]))
+//@   ensures[F,C08] @end-ruleset: result == EndRulesetGrammar ==> len(p.state) == old(len(p.state)) - 1 && old(p.state[len(p.state)-1]) == fn("css.Parser.parseQualifiedRuleDeclarationList")
+//@   ensures[F,C08] @same-depth: result == DeclarationGrammar || result == TokenGrammar || result == CommentGrammar || result == AtRuleGrammar || result == CustomPropertyGrammar ==> len(p.state) == old(len(p.state))
+//@   ensures[F,C08] @stack-prefix: forall(i, 0, min(len(p.state), old(len(p.state))), p.state[i] == old(p.state[i]))
+//@   ensures[F,C08] @eof-closed: result == ErrorGrammar && p.err == "" ==> len(p.state) == 1
+//@   requires[S] p.tt == AtKeywordToken
+//@   loop * decreases len(p.l.r.buf) - p.l.r.pos
+//@ func Parser.parseQualifiedRule
+//@   loop * candidate len(p.state) == old(len(p.state))
+//@   loop * candidate p.prevEnd == old(p.prevEnd)
+//@   loop * candidate forall(i, 0, len(p.state), p.state[i] == old(p.state[i]))
+//@   loop * candidate p.err == old(p.err)
+//@   loop * candidate p.tt != CommentToken
+//@   loop * candidate first || p.tt == WhitespaceToken
+//@   preserves[S] cpInv(p) && p.l.r.pos >= old(p.l.r.pos)
+//@   ensures[F,C08] @begin-atrule: result == BeginAtRuleGrammar ==> len(p.state) == old(len(p.state)) + 1 && isAtRuleBlock(p.state[len(p.state)-1])
+//@   ensures[F,C08] @begin-ruleset: result == BeginRulesetGrammar ==> len(p.state) == old(len(p.state)) + 1 && p.state[len(p.state)-1] == fn("css.Parser.parseQualifiedRuleDeclarationList")
+//@   ensures[F,C08] @end-atrule: result == EndAtRuleGrammar ==> len(p.state) == old(len(p.state)) - 1 && isAtRuleBlock(old(p.state[len(p.state)-1]))
+//@   ensures[F,C08] @end-ruleset: result == EndRulesetGrammar ==> len(p.state) == old(len(p.state)) - 1 && old(p.state[len(p.state)-1]) == fn("css.Parser.parseQualifiedRuleDeclarationList")
+//@   ensures[F,C08] @same-depth: result == DeclarationGrammar || result == TokenGrammar || result == CommentGrammar || result == AtRuleGrammar || result == CustomPropertyGrammar ==> len(p.state) == old(len(p.state))
+//@   ensures[F,C08] @stack-prefix: forall(i, 0, min(len(p.state), old(len(p.state))), p.state[i] == old(p.state[i]))
+//@   ensures[F,C08] @eof-closed: result == ErrorGrammar && p.err == "" ==> len(p.state) == 1
+//@   loop * decreases 2*(len(p.l.r.buf) - p.l.r.pos) + ite(first, 1, 0)
+//@ func Parser.parseDeclaration
+//@   loop * candidate len(p.state) == old(len(p.state))
+//@   loop * candidate p.prevEnd == old(p.prevEnd)
+//@   loop * candidate forall(i, 0, len(p.state), p.state[i] == old(p.state[i]))
+//@   loop * candidate p.err == old(p.err)
+//@   preserves[S] cpInv(p) && p.l.r.pos >= old(p.l.r.pos)
+//@   ensures[F,C08] @begin-atrule: result == BeginAtRuleGrammar ==> len(p.state) == old(len(p.state)) + 1 && isAtRuleBlock(p.state[len(p.state)-1])
+//@   ensures[F,C08] @begin-ruleset: result == BeginRulesetGrammar ==> len(p.state) == old(len(p.state)) + 1 && p.state[len(p.state)-1] == fn("css.Parser.parseQualifiedRuleDeclarationList")
+//@   ensures[F,C08] @end-atrule: result == EndAtRuleGrammar ==> len(p.state) == old(len(p.state)) - 1 && isAtRuleBlock(old(p.state[len(p.state)-1]))
+//@   ensures[F,C08] @end-ruleset: result == EndRulesetGrammar ==> len(p.state) == old(len(p.state)) - 1 && old(p.state[len(p.state)-1]) == fn("css.Parser.parseQualifiedRuleDeclarationList")
+//@   ensures[F,C08] @same-depth: result == DeclarationGrammar || result == TokenGrammar || result == CommentGrammar || result == AtRuleGrammar || result == CustomPropertyGrammar ==> len(p.state) == old(len(p.state))
+//@   ensures[F,C08] @stack-prefix: forall(i, 0, min(len(p.state), old(len(p.state))), p.state[i] == old(p.state[i]))
+//@   ensures[F,C08] @eof-closed: result == ErrorGrammar && p.err == "" ==> len(p.state) == 1
+//@   loop * candidate len(p.buf) >= 1
+//@   loop * candidate 0 <= j && j <= i && i <= len(p.buf)
+//@   loop * candidate 1 <= i && i <= len(p.buf)
+//@   loop * candidate 0 <= offset
+//@   loop 1 decreases len(p.l.r.buf) - p.l.r.pos
+//@ func Parser.parseDeclarationError
+//@   loop * candidate len(p.state) == old(len(p.state))
+//@   loop * candidate p.prevEnd == old(p.prevEnd)
+//@   loop * candidate forall(i, 0, len(p.state), p.state[i] == old(p.state[i]))
+//@   loop * candidate p.err == old(p.err)
+//@   preserves[S] cpInv(p) && p.l.r.pos >= old(p.l.r.pos)
+//@   ensures[F,C08] @begin-atrule: result == BeginAtRuleGrammar ==> len(p.state) == old(len(p.state)) + 1 && isAtRuleBlock(p.state[len(p.state)-1])
+//@   ensures[F,C08] @begin-ruleset: result == BeginRulesetGrammar ==> len(p.state) == old(len(p.state)) + 1 && p.state[len(p.state)-1] == fn("css.Parser.parseQualifiedRuleDeclarationList")
+//@   ensures[F,C08] @end-atrule: result == EndAtRuleGrammar ==> len(p.state) == old(len(p.state)) - 1 && isAtRuleBlock(old(p.state[len(p.state)-1]))
+//@   ensures[F,C08] @end-ruleset: result == EndRulesetGrammar ==> len(p.state) == old(len(p.state)) - 1 && old(p.state[len(p.state)-1]) == fn("css.Parser.parseQualifiedRuleDeclarationList")
+//@   ensures[F,C08] @same-depth: result == DeclarationGrammar || result == TokenGrammar || result == CommentGrammar || result == AtRuleGrammar || result == CustomPropertyGrammar ==> len(p.state) == old(len(p.state))
+//@   ensures[F,C08] @stack-prefix: forall(i, 0, min(len(p.state), old(len(p.state))), p.state[i] == old(p.state[i]))
+//@   ensures[F,C08] @eof-closed: result == ErrorGrammar && p.err == "" ==> len(p.state) == 1
+//@   requires[S] tokOK(tt, data, p) && (tt == RightBraceToken ==> p.l.r.pos >= 1) && tt != CommentToken
+//@   requires[F] p.err != ""
+//@   loop 1 invariant tokOK(tt, data, p) && (tt == RightBraceToken ==> p.l.r.pos >= 1) && tt != CommentToken
+//@   loop 1 decreases ite(tt == ErrorToken, 0, len(p.l.r.buf) - p.l.r.pos + 1)
+//@ func Parser.parseCustomProperty
+//@   loop * candidate len(p.state) == old(len(p.state))
+//@   loop * candidate p.prevEnd == old(p.prevEnd)
+//@   loop * candidate forall(i, 0, len(p.state), p.state[i] == old(p.state[i]))
+//@   loop * candidate p.err == old(p.err)
+//@   preserves[S] cpInv(p) && p.l.r.pos >= old(p.l.r.pos)
+//@   ensures[F,C08] @begin-atrule: result == BeginAtRuleGrammar ==> len(p.state) == old(len(p.state)) + 1 && isAtRuleBlock(p.state[len(p.state)-1])
+//@   ensures[F,C08] @begin-ruleset: result == BeginRulesetGrammar ==> len(p.state) == old(len(p.state)) + 1 && p.state[len(p.state)-1] == fn("css.Parser.parseQualifiedRuleDeclarationList")
+//@   ensures[F,C08] @end-atrule: result == EndAtRuleGrammar ==> len(p.state) == old(len(p.state)) - 1 && isAtRuleBlock(old(p.state[len(p.state)-1]))
+//@   ensures[F,C08] @end-ruleset: result == EndRulesetGrammar ==> len(p.state) == old(len(p.state)) - 1 && old(p.state[len(p.state)-1]) == fn("css.Parser.parseQualifiedRuleDeclarationList")
+//@   ensures[F,C08] @same-depth: result == DeclarationGrammar || result == TokenGrammar || result == CommentGrammar || result == AtRuleGrammar || result == CustomPropertyGrammar ==> len(p.state) == old(len(p.state))
+//@   ensures[F,C08] @stack-prefix: forall(i, 0, min(len(p.state), old(len(p.state))), p.state[i] == old(p.state[i]))
+//@   ensures[F,C08] @eof-closed: result == ErrorGrammar && p.err == "" ==> len(p.state) == 1
+//@   loop 1 invariant fresh(val)
+//@   loop 1 decreases len(p.l.r.buf) - p.l.r.pos
+
+//@ func Parser.Next
+//@   dyncall like Parser.parseStylesheet on p
+//@   preserves[S] cpInv(p) && p.l.r.pos >= old(p.l.r.pos)
+//@   ensures[F,C08] @begin-atrule: result0 == BeginAtRuleGrammar ==> len(p.state) == old(len(p.state)) + 1 && isAtRuleBlock(p.state[len(p.state)-1])
+//@   ensures[F,C08] @begin-ruleset: result0 == BeginRulesetGrammar ==> len(p.state) == old(len(p.state)) + 1 && p.state[len(p.state)-1] == fn("css.Parser.parseQualifiedRuleDeclarationList")
+//@   ensures[F,C08] @end-atrule: result0 == EndAtRuleGrammar ==> len(p.state) == old(len(p.state)) - 1 && isAtRuleBlock(old(p.state[len(p.state)-1]))
+//@   ensures[F,C08] @end-ruleset: result0 == EndRulesetGrammar ==> len(p.state) == old(len(p.state)) - 1 && old(p.state[len(p.state)-1]) == fn("css.Parser.parseQualifiedRuleDeclarationList")
+//@   ensures[F,C08] @same-depth: result0 == DeclarationGrammar || result0 == TokenGrammar || result0 == CommentGrammar || result0 == AtRuleGrammar || result0 == CustomPropertyGrammar ==> len(p.state) == old(len(p.state))
+//@   ensures[F,C08] @stack-prefix: forall(i, 0, min(len(p.state), old(len(p.state))), p.state[i] == old(p.state[i]))
+//@   ensures[F,C08] @eof-closed: result0 == ErrorGrammar && p.err == "" ==> len(p.state) == 1
+//@ func Parser.Err
+//@   requires[S] p != nil && p.l != nil && lexInv(p.l)
+//@ func Parser.Offset
+//@   requires[S] p != nil && p.l != nil && p.l.r != nil
+//@ func NewParser
+//@   requires[S] bufInv(r) && r.start == r.pos
+//@   ensures[S] cpInv(result)
